@@ -69,6 +69,8 @@ func scenarioExprsW(thorough bool, wf int) []string {
 		// nested calls whose inner call fails on some documents and succeeds on others (error paths must
 		// release whatever the successful path releases)
 		"length(to_string(abs(b)))", "sum(map(&abs(k), a))", "length(to_array(ceil(b)))", "to_string(length(sort(b)))", "not_null(abs(b), length(a))", "max(map(&abs(@), a))", "abs(abs(abs(b)))", "length(keys(merge(a, a)))",
+		// empty literals / empty members as the FIRST operand of combining functions
+		"merge(`{}`, @)", "merge(`{}`, a, b)", "merge(a, b)", "merge(a, b, @)", "merge(`{}`, `{\"z\":1}`)", "merge(a, `{\"z\":1}`)", "[c, b.y][]", "[`[]`, b.y][]", "not_null(c, b.y)", "to_array(c)", "merge(a, b).x", "[merge(a, b), a]",
 		"sort_by(a, &k) | sort_by(@, &t)", "sort_by(sort_by(a, &k), &t)", "a[*].sort(@)", "[sort_by(a, &k), a]", "sort_by(a, &k)[0].k",
 	} {
 		add(s)
@@ -132,7 +134,7 @@ var historyDocs = univ.Js(
 	`{"a":{"b":{"c":1}},"b":2}`, `null`, `{"a":"x","b":"y"}`, `[{"k":1},{"k":"a"}]`,
 	`{"c":1}`, `{"d":[2],"a":[1,2],"b":[1,3]}`,
 	`{"a":[9,8,7,6,5,4,3,2,1,0],"b":["j","i","h","g","f","e","d","c","b","a"]}`,
-	`{"a":[{"k":1,"t":0},{"k":"x","t":1},{"k":2,"t":"y"}],"b":[1,"a"]}`, `[9,8,7,6,5,4,3,2,1,0,11,12]`, `{"größe":1,"名前":2,"a١":3,"é":4,"ǅ":5,"a":6}`,
+	`{"a":[{"k":1,"t":0},{"k":"x","t":1},{"k":2,"t":"y"}],"b":[1,"a"]}`, `[9,8,7,6,5,4,3,2,1,0,11,12]`, `{"a":{},"b":{"x":1,"y":[2]},"c":[]}`, `{"größe":1,"名前":2,"a١":3,"é":4,"ǅ":5,"a":6}`,
 )
 
 func resKey(res interface{}, err error, pn *impl.Panic) string {
